@@ -63,6 +63,7 @@ struct Shared {
     t0: Instant,
     seq: AtomicU64,
     conn_seq: AtomicU64,
+    client_ips: AtomicU64,
     nodes: Mutex<Vec<Arc<NodeState>>>,
 }
 
@@ -106,6 +107,7 @@ impl MockCluster {
                         t0: Instant::now(),
                         seq: AtomicU64::new(0),
                         conn_seq: AtomicU64::new(0),
+                        client_ips: AtomicU64::new(0),
                         nodes: Mutex::new(Vec::new()),
                     });
                     for (node, ls) in listeners.into_iter().enumerate() {
@@ -132,6 +134,19 @@ impl MockCluster {
         Ok(all)
     }
 
+    /// A loopback address for the CLIENT side of this cluster, different on every call:
+    /// 127.1.<cluster_id>.<k>. Give it to `SessionBuilder::local_ip_address(Some(ip))`: sockets bound
+    /// to their own local address have their own ephemeral port space, so a run that opens and closes
+    /// thousands of connections (TIME_WAIT on 127.0.0.1) cannot run into EADDRINUSE, neither by itself
+    /// nor because of other processes doing the same.
+    pub fn client_ip(&self) -> IpAddr {
+        let k = self.sh.client_ips.fetch_add(1, Ordering::SeqCst);
+        IpAddr::V4(std::net::Ipv4Addr::new(127, 1 + (k / 250 % 100) as u8, self.sh.cluster_id, (1 + k % 250) as u8))
+    }
+    /// Nanoseconds since the cluster was started (the clock of `TraceEvent.t_ns`).
+    pub fn now_ns(&self) -> u64 {
+        self.sh.t0.elapsed().as_nanos() as u64
+    }
     pub fn cluster_id(&self) -> u8 {
         self.sh.cluster_id
     }
